@@ -23,7 +23,7 @@ func runSessions(r *Run, cases []*RCase, what func(c *RCase, i int, g, m string)
 			break
 		}
 		if c.Panic != "" {
-			if panicInDependency(c.Panic) {
+			if panicInDependency(c.Panic) && (c.Meta == nil || c.Meta["must_not_panic"] == nil) {
 				r.Dist["panic_in_dependency"]++ // not dyntpl's own code (C13 counts these separately)
 				continue
 			}
@@ -227,6 +227,17 @@ func init() {
 					pcases = append(pcases, c)
 					r.Dist["keyword-in-prefix"]++
 				}
+			}
+		}
+		// nil pointers of every scalar type as values: a print tag prints nothing — no prefix, no suffix, no panic
+		for pi, p := range []any{(*int)(nil), (*int64)(nil), (*uint32)(nil), (*float64)(nil), (*string)(nil), (*[]byte)(nil), (*bool)(nil), (*float32)(nil)} {
+			for _, tag := range []string{`{%= p %}`, `{%= p pfx < sfx > %}`, `{%= p prefix [ %}`, `{%j= p sfx ; %}`, `{%= p %}{%= si pfx ( sfx ) %}{%= p suffix ! %}`} {
+				src := `a[` + tag + `]b`
+				c := &RCase{Tpls: []TplDef{{Key: "main", Src: src, KeepFmt: true}}, Meta: map[string]any{"typed-nil-pointer-printed": fmt.Sprintf("%T", p), "tag": tag, "n": pi,
+					"must_not_panic": "C01 names nil pointers among the values that print nothing: handing one to a converter that dereferences it is dyntpl's doing"}}
+				c.Ops = []SOp{{Kind: "static", Name: "p", Val: p}, {Kind: "static", Name: "si", Val: int64(7)}, {Kind: "render", Key: "main"}, {Kind: "render", Key: "main"}}
+				pcases = append(pcases, c)
+				r.Dist["typed-nil-pointer-printed"]++
 			}
 		}
 		// the square-bracket mode of counter loops ends with the loop however the loop ends (exit, an error, a failing
